@@ -21,6 +21,7 @@ package c19
 
 import (
 	"fmt"
+	"math"
 	"math/rand"
 	"strings"
 	"sync"
@@ -112,6 +113,7 @@ type conf struct {
 	// 2 = -1ns (all of them are already over at any later instant; exactly 0 is not used: two
 	// clock readings may coincide)
 	expiredBy int
+	neverKind int // how "never" is written (see config)
 }
 
 func (c conf) String() string {
@@ -140,18 +142,21 @@ const (
 func (c conf) config(cacheSize int64) *vcode.Config {
 	cf := &vcode.Config{CacheSize: cacheSize, Mock: c.mock, CodeLen: c.codeLen,
 		MaxCount: c.maxCount, MaxVerifyCount: c.maxVerify}
+	// "never" (a lifetime / interval / window that does not end during a case) is written as
+	// 1000 h or as one of the largest durations there are
+	nv := []time.Duration{never, math.MaxInt64, math.MaxInt64 - 1, 1 << 62, 290 * 365 * 24 * time.Hour}[c.neverKind%5]
 	if c.ttlNever {
-		cf.TTL = tex.Duration(never)
+		cf.TTL = tex.Duration(nv)
 	} else {
 		cf.TTL = tex.Duration([]time.Duration{always, -time.Millisecond, -time.Nanosecond}[c.expiredBy%3])
 	}
 	if c.ivNever {
 		cf.MinInterval = tex.Duration(0)
 	} else {
-		cf.MinInterval = tex.Duration(never)
+		cf.MinInterval = tex.Duration(nv)
 	}
 	if c.refreshNever {
-		cf.CounterDuration = tex.Duration(never)
+		cf.CounterDuration = tex.Duration(nv)
 	} else {
 		cf.CounterDuration = tex.Duration(always)
 	}
